@@ -125,8 +125,15 @@ func (p *publisher) newSubscriber(c *z.Closer, matches []pb.Match) (subscriber, 
 	s.active.Store(1)
 
 	p.subscribers[id] = s
-	for _, m := range matches {
-		if err := p.indexer.AddMatch(m, id); err != nil {
+	for i := range matches {
+		if err := p.indexer.AddMatch(matches[i], id); err != nil {
+			// Undo the registration. The caller gets an error and never serves this subscriber:
+			// left in place, it would keep receiving batches nobody reads and DB.Close would wait
+			// forever for its closer in cleanSubscribers.
+			for j := 0; j < i; j++ {
+				_ = p.indexer.DeleteMatch(matches[j], id)
+			}
+			delete(p.subscribers, id)
 			return subscriber{}, err
 		}
 	}
